@@ -36,6 +36,17 @@ def _new_acc():
             "outcomes": {}, "classes": {}}
 
 
+def is_slow(sc, rewards):
+    """games that legitimately need very many sweeps: a transition probability within 1e-2 of 1 (but not 1), or large rewards"""
+    if max(rewards) >= 50:
+        return True
+    for row in sc.tl:
+        for lab, _ in row:
+            if not isinstance(lab, str) and 0.99 <= lab < 1:
+                return True
+    return False
+
+
 def _count(acc, key, sub):
     d = acc.setdefault(key, {})
     d[sub] = d.get(sub, 0) + 1
@@ -76,13 +87,15 @@ def analyse_game(prop, sc, rewards, acc, thresholds=()):
 
     runs = {}
     for prune in (True, False):
+        slow = is_slow(sc, rewards)
         if stopping and prop == "C06":
-            gr = J.GameRun(sc, rewards, prune, confirm=True)
+            gr = J.GameRun(sc, rewards, prune, confirm=True,
+                           outcome=Rn.solve(sc.game(rewards), prune, cpu_s=60.0, max_lines=400_000_000) if slow else None)
         elif stopping:
             # termination on stopping games is C06's verdict; the other properties only need the result, so a run that
             # does not come back within the alarm is counted (and ends the shard early if it keeps happening), never judged
             gr = J.GameRun(sc, rewards, prune, confirm=False,
-                           outcome=Rn.solve(sc.game(rewards), prune, cpu_s=STOP_CPU if max(rewards) < 50 else 10 * STOP_CPU, confirm=False))
+                           outcome=Rn.solve(sc.game(rewards), prune, cpu_s=60.0 if slow else STOP_CPU, confirm=False))
             if gr.out.kind == "timeout":
                 acc["stopping_timeouts"] = acc.get("stopping_timeouts", 0) + 1
         else:
@@ -113,7 +126,7 @@ def analyse_game(prop, sc, rewards, acc, thresholds=()):
             if gr.ok:
                 vectors.append(("solve() prune=%s" % prune, {"prune": prune}, gr.out.result[3], gr.out.result[1]))
         if seam_needed:
-            so = Rn.solve_reach_seam(sc.game(rewards), False)
+            so = Rn.solve_reach_seam(sc.game(rewards), False, cpu_s=60.0 if slow else 1.0, max_lines=400_000_000 if slow else 1_000_000)
             acc["executions"] += 1
             if so.kind == "ok":
                 vectors.append(("Solver.solve_reachability", {"seam": True}, so.result[0], so.result[1]))
@@ -374,9 +387,9 @@ def _game_family(name, shard):
             _FAMILIES[key] = [U.U_F_build(c, shard.get("focus_reward", 1))[0] for c in U.U_F_cases(shard["max_deg"])]
         elif name == "U-D":
             _FAMILIES[key] = U.U_D_games()
-        elif name in ("U-E", "U-C", "U-L", "U-R", "U-P2", "U-N"):
+        elif name in ("U-E", "U-C", "U-L", "U-R", "U-P2", "U-N", "U-W", "U-Z"):
             _FAMILIES[key] = {"U-E": U.U_E_games, "U-C": U.U_C_games, "U-L": U.U_L_games, "U-R": U.U_R_games,
-                              "U-P2": U.U_P2_games, "U-N": U.U_N_games}[name]()
+                              "U-P2": U.U_P2_games, "U-N": U.U_N_games, "U-W": U.U_W_games, "U-Z": U.U_Z_games}[name]()
         elif name == "U-X":
             from .inputs import small_example_games
             _FAMILIES[key] = small_example_games()
